@@ -109,7 +109,7 @@ class C12(Prop):
             'resource passing by. Non-trivial = at least two rows share a key and at least two differ; distinct = distinct (key form, value pools, reverse, knobs, size).')
     ASSUMPTIONS = ['numeric key values are distinct in double precision (the encoding\'s stated domain) and key fields are non-null', 'multi-field keys put numeric fields before text so that the order does not depend on the particular order-preserving number encoding']
     REAL_VS_STUB = {'real': ['dataflows sort_rows', 'kvfile + sqlite ordering'], 'stub': ['KVFile twin: cache-size knob and operation counter']}
-    PROBES = ['reverse', 'spill-path', 'prefix-strings-below-0', 'negative-zero', 'huge-negative', 'decimal-values', 'callable-key', 'format-string-key', 'field-list-key', 'two-field-key', 'ties', 'other-resource', 'rows>10240', 'equal-numbers-different-spelling', 'numeric-looking-text', 'two-resources-sorted-by-one-step', 'control-characters-after-a-prefix', 'literal-text-between-text-fields', 'rich-payload-cells']
+    PROBES = ['reverse', 'spill-path', 'prefix-strings-below-0', 'negative-zero', 'huge-negative', 'decimal-values', 'callable-key', 'format-string-key', 'field-list-key', 'two-field-key', 'ties', 'other-resource', 'rows>10240', 'equal-numbers-different-spelling', 'numeric-looking-text', 'two-resources-sorted-by-one-step', 'control-characters-after-a-prefix', 'literal-text-between-text-fields', 'rich-payload-cells', 'literal-text-after-the-last-field']
     TIERS = {'quick': dict(runs=1500, wall=100, run_wall=300),
              'thorough': dict(runs=40000, wall=1700, run_wall=600)}
     SHRINK_FROZEN = ('fields',)
@@ -132,6 +132,12 @@ class C12(Prop):
                'callable': {'callable': rng.choice(['lower', 'len', 'id'])}, 'list-ss': ['s', 's'],
                # two text fields with literal text between (and around) them: the literals are part of the key
                'fmt-ts': '{t}|{s}', 'fmt-ts2': 'k:{t}:{s}!'}[form]
+        # literal text AFTER the last field is part of the key as well: with '~' nearly every continuation of a prefix sorts below it
+        # (decided from what is already drawn, so that no scenario changes otherwise)
+        if form == 'fmt-s' and n % 2 == 0:
+            key = '{s}~'
+        elif form == 'fmt-ns' and n % 2 == 1:
+            key = '{n}|{s}~'
         sc = {'table': {'name': 'res', 'fields': fields, 'rows': rows}, 'key': key, 'reverse': rng.random() < 0.4, 'other': rng.random() < 0.3,
               'batch': rng.sample([1, 2, 7, 1000], 2), 'kv': rng.sample([1, 3, 64, 10240], 2)}
         if rng.random() < 0.5:
@@ -152,6 +158,8 @@ class C12(Prop):
         self._probes(sc, ctx, rows, keys)
         if rows and 'p' in rows[0]:
             ctx.probe('rich-payload-cells')
+        if isinstance(sc['key'], str) and not sc['key'].endswith('}'):
+            ctx.probe('literal-text-after-the-last-field')
         outs = []
         for bs, kvsize in zip((sc.get('batch') or [1000, 1000])[:2], (sc.get('kv') or [10240, 3])[:2]):
             r = ctx.subrun(_run, {'sc': sc, 'batch_size': bs, 'kvsize': kvsize}, wall=500)
